@@ -387,3 +387,17 @@ class Real(PackedOps):
         spord = int(np.log2(m.nside_sparse))
         sent = m._sentinel
         return "kind=%s covord=%d spord=%d sentinel=%s" % (k, covord, spord, enc.enc_scalar(sent))
+
+    def op_mop(self, pos, kv):
+        maps = [self.m(n) for n in split_list(kv['maps'])]
+        name = kv['name']
+        if name.startswith('ufunc_'):
+            m0 = maps[0]
+            fv = dec_val(kv['filler'])
+            if not m0.is_wide_mask_map:
+                fv = m0.dtype.type(fv)
+            r = getattr(healsparse, name)(maps, getattr(np, kv['ufunc']), filler_value=fv)
+        else:
+            r = getattr(healsparse, name)(maps)
+        self.pool[kv['r']] = r
+        return 'ok'
